@@ -11,7 +11,8 @@ from ..dim import World
 from ..flow import Fn
 
 EXPLANATION = (
-    "The nine closed-form operator formulas of core/fields/operators.py are read, per coordinate-system branch, into terms "
+    "core/fields/operators.py is evaluated abstractly (whatever the shape of its code) for every component count 0..3 of the "
+    "field and two families of component functions (generic undefined functions of the three base scalars; constants); "
     "(base_scalars()[k] -> coordinate k, field_components[k] / field_space -> generic undefined functions of the three "
     "coordinates, diff -> formal derivation) and compared, in an exact normal form of rational functions with the relation "
     "sin^2+cos^2=1, with the orthogonal-curvilinear reference grad_i = d_i f / h_i, div = (h1h2h3)^-1 sum d_i(F_i h_j h_k), "
